@@ -6,8 +6,11 @@ package syncx
 // ResourceManager, every call and every execution of a user function stamped by one global atomic
 // counter. One section = one concurrent run; one line = one call:
 //
-//	call id=<n> g=<goroutine> key=<k> ex=<0|1> pre=<n> yield=<n> err=<0|1> hold=<0|1>
-//	   => inv=<stamp> ret=<stamp> val=<id|nil> fresh=<0|1|-> err=<id|-> fs=<stamp|-> fe=<stamp|-> runs=<n> stuck=<0|1>
+//	call id=<n> g=<goroutine> key=<k> ex=<0|1> pre=<n> yield=<n> err=<0|1> hold=<0|1> [panic=1]
+//	   => inv=<stamp> ret=<stamp> val=<id|nil> fresh=<0|1|-> err=<id|-> fs=<stamp|-> fe=<stamp|-> runs=<n> stuck=<0|1> [panic=1]
+//
+// panic=1 in the op: the user function panics (after its last stamp); panic=1 in the observation: the call
+// panicked (recovered by the harness goroutine).
 //
 // The generator (c07Gen) only writes op lines; the executor (c07RunSection) is driven by the op text alone,
 // so replay and shrinking re-run op lists. Every user function returns the id of the call it was passed
@@ -42,6 +45,7 @@ type c07Call struct {
 	text                  string
 	id, g, key            int
 	ex, serr, hold        bool
+	spanic                bool
 	pre, yield            int
 	inv, ret, fs, fe      int64
 	val, fresh, err       string
@@ -63,6 +67,7 @@ func c07Parse(text string) (*c07Call, bool) {
 	}
 	return &c07Call{text: text, id: c.Int("id", -1), g: c.Int("g", 0), key: c.Int("key", 0),
 		ex: c.Int("ex", 0) == 1, serr: c.Int("err", 0) == 1, hold: c.Int("hold", 0) == 1,
+		spanic: c.Int("panic", 0) == 1,
 		pre: c.Int("pre", 0), yield: c.Int("yield", 0), val: "nil", fresh: "-", err: "-"}, true
 }
 
@@ -183,6 +188,9 @@ func c07RunSection(cfg verifh.Cfg, ops []string) []string {
 			mu.Lock()
 			c.fe = e
 			mu.Unlock()
+			if c.spanic {
+				panic(fmt.Sprintf("c07: scripted panic of call %d", c.id))
+			}
 			if mode == "rm" {
 				if c.serr {
 					return nil, &c07Err{c.id}
@@ -349,6 +357,8 @@ func c07Gen(r *verifh.Rng) []verifh.Section {
 		// long functions (many joiners), mixed
 		style := r.Intn(4)
 		holdSec := r.Chance(1, 6) && k >= 2
+		// some user functions panic (sf, lc): the deferred cleanup must still free the key and wake the waiters
+		panicSec := mode != "rm" && r.Chance(1, 4)
 		var ops []string
 		id := 0
 		for gi := 0; gi < g; gi++ {
@@ -390,8 +400,12 @@ func c07Gen(r *verifh.Rng) []verifh.Section {
 				if mode != "sf" {
 					ex = 0
 				}
-				ops = append(ops, fmt.Sprintf("call id=%d g=%d key=%d ex=%d pre=%d yield=%d err=%d hold=%d",
-					id, gi, key, ex, pre, yield, serr, hold))
+				op := fmt.Sprintf("call id=%d g=%d key=%d ex=%d pre=%d yield=%d err=%d hold=%d",
+					id, gi, key, ex, pre, yield, serr, hold)
+				if panicSec && hold == 0 && r.Chance(1, 4) {
+					op += " panic=1"
+				}
+				ops = append(ops, op)
 			}
 		}
 		cfg := fmt.Sprintf("mode=%s g=%d k=%d procs=%d", mode, g, k, procs)
